@@ -856,10 +856,112 @@ bool prop_enum(uint64_t idx, std::vector<uint8_t>& out) {
     return true;
 }
 
+// ---- format-dependent LLC control field and the two-argument TCP flag accessors (not one-argument table rows) -----------
+// IEEE 802.2 control field (bit 0 = least significant bit of the first control octet):
+//   I format: bit0 = 0, bits1-7 = N(S); second octet: bit0 = P/F, bits1-7 = N(R)
+//   S format: bits0-1 = 01, bits2-3 = supervisory function, bits4-7 = 0; second octet as above
+//   U format: one octet, bits0-1 = 11, bit4 = P/F, modifier bits in 2,3,5,6,7
+static void llc_case(Src& s, Ctx& ctx) {
+    using namespace Tins;
+    LLC l;
+    static const LLC::Format F[] = {LLC::INFORMATION, LLC::SUPERVISORY, LLC::UNNUMBERED};
+    LLC::Format fmt = F[s.pick(3)];
+    l.type(fmt);
+    unsigned ns = 0, nr = 0, pf = 0, sup = 0, mod = 0, dsap = l.dsap(), ssap = l.ssap();
+    std::string hist = std::string("LLC type=") + (fmt == LLC::INFORMATION ? "I" : fmt == LLC::SUPERVISORY ? "S" : "U");
+    unsigned steps = 1 + (unsigned)s.range(0, 7);
+    auto check = [&](const char* after) {
+        std::string tag = std::string("C15:LLC.control:") + after;
+        VCHECK(ctx, l.type() == (uint8_t)fmt, tag + ":type", hist);
+        if (fmt == LLC::INFORMATION) VCHECK(ctx, l.send_seq_number() == ns, "C15:LLC.send_seq_number:getter-differs-in-state", hist << " N(S) is " << (int)l.send_seq_number() << " expected " << ns);
+        if (fmt != LLC::UNNUMBERED) VCHECK(ctx, l.receive_seq_number() == nr, "C15:LLC.receive_seq_number:getter-differs-in-state", hist << " N(R) is " << (int)l.receive_seq_number() << " expected " << nr);
+        VCHECK(ctx, (unsigned)l.poll_final() == pf, "C15:LLC.poll_final:getter-differs-in-state", hist);
+        if (fmt == LLC::SUPERVISORY) VCHECK(ctx, l.supervisory_function() == sup, "C15:LLC.supervisory_function:getter-differs-in-state", hist);
+        if (fmt == LLC::UNNUMBERED) VCHECK(ctx, l.modifier_function() == mod, "C15:LLC.modifier_function:getter-differs-in-state", hist);
+        VCHECK(ctx, l.dsap() == dsap && l.ssap() == ssap, "C15:LLC.sap:neighbour-changed", hist);
+        // the wire
+        PDU::serialization_type y = l.serialize();
+        size_t need = fmt == LLC::UNNUMBERED ? 3 : 4;
+        VCHECK(ctx, y.size() == need, "C15:LLC.control:serialisation-size", hist << " size " << y.size());
+        if (y.size() != need) return;
+        VCHECK(ctx, y[0] == dsap && y[1] == ssap, "C15:LLC.sap:wire-value", hist);
+        bool ok;
+        if (fmt == LLC::INFORMATION) ok = y[2] == (uint8_t)(ns << 1) && y[3] == (uint8_t)((nr << 1) | pf);
+        else if (fmt == LLC::SUPERVISORY) ok = y[2] == (uint8_t)(0x01 | (sup << 2)) && y[3] == (uint8_t)((nr << 1) | pf);
+        else ok = (y[2] & 0x03) == 0x03 && ((y[2] >> 4) & 1) == pf && ((unsigned)(((y[2] >> 2) & 3) << 3) | (unsigned)(y[2] >> 5)) == mod;
+        VCHECK(ctx, ok, "C15:LLC.control:wire-value", hist << " control octets " << hex(y.data() + 2, y.size() - 2));
+        LLC q(y.data(), (uint32_t)y.size());
+        bool same = q.type() == l.type() && q.send_seq_number() == l.send_seq_number() && q.receive_seq_number() == l.receive_seq_number() &&
+                    q.poll_final() == l.poll_final() && q.supervisory_function() == l.supervisory_function() && q.modifier_function() == l.modifier_function();
+        VCHECK(ctx, same, "C15:LLC.control:reparse-differs", hist);
+    };
+    for (unsigned i = 0; i < steps; ++i) {
+        unsigned op = (unsigned)s.range(0, 7);
+        unsigned v = (unsigned)s.edgy(8);
+        std::ostringstream d;
+        switch (op) {
+            case 0: if (fmt != LLC::INFORMATION) continue;
+                    l.send_seq_number((uint8_t)v); d << " N(S)=" << v;
+                    if (v > 127) { VCHECK(ctx, false, "C15:LLC.send_seq_number:silent-truncation", hist << d.str()); ns = l.send_seq_number(); } else ns = v;
+                    break;
+            case 1: if (fmt == LLC::UNNUMBERED) continue;
+                    l.receive_seq_number((uint8_t)v); d << " N(R)=" << v;
+                    if (v > 127) { VCHECK(ctx, false, "C15:LLC.receive_seq_number:silent-truncation", hist << d.str()); nr = l.receive_seq_number(); } else nr = v;
+                    break;
+            case 2: pf = v & 1; l.poll_final(pf != 0); d << " P/F=" << pf; break;
+            case 3: if (fmt != LLC::SUPERVISORY) continue;
+                    sup = v % 3; l.supervisory_function((LLC::SupervisoryFunctions)sup); d << " S=" << sup; break;
+            case 4: if (fmt != LLC::UNNUMBERED) continue;
+                    mod = v & 31; l.modifier_function((LLC::ModifierFunctions)mod); d << " M=" << mod; break;
+            case 5: l.type(fmt); d << " type(same format again)"; break;   // must not disturb any field
+            case 6: dsap = v; l.dsap((uint8_t)v); d << " dsap=" << v; break;
+            default: ssap = v; l.ssap((uint8_t)v); d << " ssap=" << v; break;
+        }
+        hist += d.str();
+        check("step");
+    }
+    ctx.label("llc-control-block");
+    ctx.hash("llc"); ctx.hash(hist);
+    ctx.nontrivial(steps >= 3);
+    ctx.sample(hist);
+}
+
+// TCP flag bits by name (RFC 9293 / RFC 3168): the per-flag accessors must agree with flags(), with the wire octet and
+// with each other's neighbours
+static void tcp_flag_case(Src& s, Ctx& ctx) {
+    using namespace Tins;
+    static const TCP::Flags FL[] = {TCP::FIN, TCP::SYN, TCP::RST, TCP::PSH, TCP::ACK, TCP::URG, TCP::ECE, TCP::CWR};
+    static const unsigned MASK[] = {0x01, 0x02, 0x04, 0x08, 0x10, 0x20, 0x40, 0x80};   // position in octet 13 of the TCP header
+    static const char* NAME[] = {"FIN", "SYN", "RST", "PSH", "ACK", "URG", "ECE", "CWR"};
+    TCP t;
+    unsigned model = (unsigned)s.u8();
+    t.flags((small_uint<12>)model);
+    std::string hist = "TCP flags=" + std::to_string(model);
+    unsigned steps = 1 + (unsigned)s.range(0, 5);
+    for (unsigned i = 0; i < steps; ++i) {
+        unsigned k = (unsigned)s.pick(8), v = s.u8() & 1;
+        t.set_flag(FL[k], (small_uint<1>)v);
+        model = v ? (model | MASK[k]) : (model & ~MASK[k]);
+        hist += std::string(" set_flag(") + NAME[k] + "," + std::to_string(v) + ")";
+        for (unsigned j = 0; j < 8; ++j)
+            VCHECK(ctx, (unsigned)t.get_flag(FL[j]) == ((model & MASK[j]) ? 1u : 0u), std::string("C15:TCP.set_flag:get_flag-differs:") + NAME[j], hist);
+        VCHECK(ctx, ((unsigned)t.flags() & 0xff) == model, "C15:TCP.set_flag:flags()-differs", hist << " flags() = " << (unsigned)t.flags() << " expected " << model);
+        VCHECK(ctx, t.has_flags((small_uint<12>)model), "C15:TCP.set_flag:has_flags-differs", hist);
+        PDU::serialization_type y = t.serialize();
+        VCHECK(ctx, y.size() >= 20 && y[13] == model, "C15:TCP.set_flag:wire-value", hist << " octet 13 = " << (y.size() >= 20 ? (int)y[13] : -1) << " expected " << model);
+    }
+    ctx.label("tcp-flag-block");
+    ctx.hash("tcpflag"); ctx.hash(hist);
+    ctx.nontrivial(steps >= 2);
+    ctx.sample(hist);
+}
+
 void prop(Src& s, Ctx& ctx) {
     init_tables();
     Case cs;
     uint8_t sel = s.u8();
+    if (sel == 0xfd) { llc_case(s, ctx); return; }
+    if (sel == 0xfc) { tcp_flag_case(s, ctx); return; }
     if (sel == 0xff || sel == 0xfe) {
         cs.enumerated = true;
         cs.ci = s.u8() % g_classes.size();
